@@ -29,8 +29,10 @@ def main : IO Unit := do
       IO.println s!"QROW a template writes an absolute path that starts at `::{s}` (first at derive-ex/src/{wh s}), not at `::core`"
   for s in Generated.quoteRelRoots do
     IO.println s!"QROW a template writes a path that starts at `{s}::` (the user's crate or module), not at `::core`"
+  for s in Generated.quoteMethods do
+    IO.println s!"QROW a template calls `.{s}(..)` in method syntax (first at derive-ex/src/{wh s}): resolved among the traits in scope of the user"
   for s in Generated.quoteSingles do
-    if !(litOK s || ["debug_struct", "debug_tuple", "derive_ex"].contains s) then
+    if !(litOK s || ["derive_ex"].contains s) then
       IO.println s!"QROW a template consists of the single free identifier `{s}` (first at derive-ex/src/{wh s})"
   for s in Generated.quoteBinderPrefixes do
     if !(binderPrefixes.contains s && reserved s) then
